@@ -130,12 +130,12 @@ def run(res, tier, seed):
                          dict(format=fmt, line_index=i, pattern=kind, switch=sw, first_words=[hex(w) for w in words[:3]]))
             # ---------- Coq model on a subset ----------
             if i < ncoq or (i < 2 * len(kinds) and tier == "thorough"):
-                rows = "[" + "; ".join(common.zlist(row) for row in goti.tolist()) + "]"
+                rows = common.zpack(goti.ravel().tolist())
                 if fam == "klm":
                     bf = (line["bitfield_hi"] & 0xFFFC) | (sw & 3)
-                    coq["klm_counts"].append(("(%d%%nat, %d, %s, %s)" % (W, bf, common.zlist(words), rows), (fmt, i)))
+                    coq["klm_counts"].append(("(Z.to_nat %d, %d, %s, %s)" % (W, bf, common.zpack(words), rows), (fmt, i)))
                 else:
-                    coq["pod_counts"].append(("(%d%%nat, %s, %s)" % (W, common.zlist(words), rows), (fmt, i)))
+                    coq["pod_counts"].append(("(Z.to_nat %d, %s, %s)" % (W, common.zpack(words), rows), (fmt, i)))
             gq = qtriple(Fraction(float(prt[i])), [Fraction(float(x)) for x in ict[i]], [Fraction(float(x)) for x in space[i]])
             if fam == "klm":
                 coq["klm_tele"].append(("(%s, %s, %s, %s)" % (common.zlist(line["prt"]), common.zlist(line["ict"]),
@@ -146,7 +146,7 @@ def run(res, tier, seed):
         if not lst:
             continue
         failing, logs = common.coq_eval("c02_" + key, "From PV Require Import M_Counts.", "check_" + key,
-                                        [c for c, _ in lst], shard=(2 if "counts" in key else 200))
+                                        [c for c, _ in lst], shard=(4 if "counts" in key else 200))
         res.notes["coq_cases_" + key] = len(lst)
         for kind, idx, msg in failing:
             if kind == "error":
